@@ -79,6 +79,8 @@ def replay(infile, out):
         run_one(f, li, indent + new, outf, parts[4])
     outf.write("DONE replay\n")
 
+LINES = tuple(int(x) for x in os.environ["AUTOMUT_LINES"].split("-")) if os.environ.get("AUTOMUT_LINES") else None
+
 def main():
     if sys.argv[1] == "replay":
         return replay(sys.argv[2], sys.argv[3])
@@ -89,12 +91,14 @@ def main():
     pool = [f for f in files for _ in range(WEIGHT.get(f, 1))]
     done = 0; tried = 0
     outf = open(out, "a")
-    while done < n and tried < 50 * n:
+    while done < n and tried < 2000 * n:
         tried += 1
         f = rnd.choice(pool)
         src = open(os.path.join(REPO, "m4ri", f)).read().split("\n")
         cm = in_comment_map(src)
         li = rnd.randrange(len(src))
+        if LINES and not (LINES[0] <= li + 1 <= LINES[1]):
+            continue
         if cm[li] or not eligible(src[li]):
             continue
         op = rnd.choice(OPS)
